@@ -20,124 +20,7 @@ use simworld::memstore::{MemError, MemHooks, MemStore};
 use simworld::populate::{populate, sqlite_memory};
 use tokio::sync::broadcast;
 
-// ------------------------------------------------------------------------------------------------
-// Wire normal form
-// ------------------------------------------------------------------------------------------------
-
-#[derive(Clone, Debug, PartialEq, Eq)]
-pub enum Wire {
-    Have(BTreeMap<(VerifyingKey, LogIdT), SeqNum>),
-    PreSync { ops: u32, bytes: u32 },
-    Op { hash: Hash, author: VerifyingKey, log: LogIdT, seq: SeqNum, bytes: u32 },
-    Done,
-    Live { hash: Hash },
-    Close,
-    Garbage,
-}
-
-impl Wire {
-    pub fn label(&self) -> String {
-        match self {
-            Wire::Have(h) => format!("Have({})", h.iter().map(|((a, l), s)| format!("{}:{}={}", short_key(a), l, s)).collect::<Vec<_>>().join(",")),
-            Wire::PreSync { ops, bytes } => format!("PreSync({ops},{bytes})"),
-            Wire::Op { author, log, seq, .. } => format!("Op({}:{}#{})", short_key(author), log, seq),
-            Wire::Done => "Done".into(),
-            Wire::Live { hash } => format!("Live({})", short(hash)),
-            Wire::Close => "Close".into(),
-            Wire::Garbage => "Garbage".into(),
-        }
-    }
-}
-
-pub trait ToWire {
-    fn to_wire(&self) -> Wire;
-}
-
-impl ToWire for LogSyncMessage<LogIdT> {
-    fn to_wire(&self) -> Wire {
-        match self {
-            LogSyncMessage::Have(h) => {
-                let mut m = BTreeMap::new();
-                for (a, ls) in h {
-                    for (l, s) in ls {
-                        m.insert((*a, *l), *s);
-                    }
-                }
-                Wire::Have(m)
-            }
-            LogSyncMessage::PreSync { total_operations, total_bytes } => Wire::PreSync { ops: *total_operations, bytes: *total_bytes },
-            LogSyncMessage::Operation(h, b) => match decode_cbor::<Header<SimExt>, _>(&h[..]) {
-                Ok(header) => Wire::Op {
-                    hash: header.hash(),
-                    author: header.verifying_key,
-                    log: header.extensions.log_id,
-                    seq: header.seq_num,
-                    bytes: (h.len() + b.as_ref().map(|b| b.len()).unwrap_or(0)) as u32,
-                },
-                Err(_) => Wire::Garbage,
-            },
-            LogSyncMessage::Done => Wire::Done,
-        }
-    }
-}
-
-impl ToWire for TopicLogSyncMessage<LogIdT, SimExt> {
-    fn to_wire(&self) -> Wire {
-        match self {
-            TopicLogSyncMessage::Sync(m) => m.to_wire(),
-            TopicLogSyncMessage::Live(h, _) => Wire::Live { hash: h.hash() },
-            TopicLogSyncMessage::Close => Wire::Close,
-        }
-    }
-}
-
-// ------------------------------------------------------------------------------------------------
-// Events normal form
-// ------------------------------------------------------------------------------------------------
-
-#[derive(Clone, Debug, PartialEq, Eq)]
-pub enum Evt {
-    SessionStarted,
-    SyncStarted,
-    Op { hash: Hash, author: VerifyingKey, log: LogIdT, seq: SeqNum },
-    SyncFinished,
-    LiveModeStarted,
-    SessionFinished,
-    Failed(String),
-}
-
-impl Evt {
-    pub fn label(&self) -> String {
-        match self {
-            Evt::Op { author, log, seq, .. } => format!("OperationReceived({}:{}#{})", short_key(author), log, seq),
-            Evt::Failed(e) => format!("Failed({e})"),
-            other => format!("{other:?}"),
-        }
-    }
-}
-
-fn op_evt(o: &Operation<SimExt>) -> Evt {
-    Evt::Op { hash: o.hash, author: o.header.verifying_key, log: o.header.extensions.log_id, seq: o.header.seq_num }
-}
-
-pub fn from_log_event(e: LogSyncEvent<SimExt>) -> Evt {
-    match e {
-        LogSyncEvent::MetricsExchanged { .. } => Evt::SyncStarted,
-        LogSyncEvent::OperationReceived { operation, .. } => op_evt(&operation),
-    }
-}
-
-pub fn from_topic_event(e: TopicLogSyncEvent<SimExt>) -> Evt {
-    match e {
-        TopicLogSyncEvent::SessionStarted => Evt::SessionStarted,
-        TopicLogSyncEvent::SyncStarted { .. } => Evt::SyncStarted,
-        TopicLogSyncEvent::SyncFinished { .. } => Evt::SyncFinished,
-        TopicLogSyncEvent::LiveModeStarted => Evt::LiveModeStarted,
-        TopicLogSyncEvent::OperationReceived { operation, .. } => op_evt(&operation),
-        TopicLogSyncEvent::SessionFinished { .. } => Evt::SessionFinished,
-        TopicLogSyncEvent::Failed { error } => Evt::Failed(error),
-    }
-}
+pub use simworld::syncwire::{Evt, ToWire, Wire, from_log_event, from_topic_event};
 
 // ------------------------------------------------------------------------------------------------
 // Configuration and outcome
